@@ -27,7 +27,7 @@ func vHas(seq []int, x int) bool {
 
 // VSetStep: one variadic operation on a set whose members are exactly pre (pairwise distinct; in insertion order
 // when ordered). Checks C04 (membership, size, each member once) and, for ordered sets, C09 (insertion order).
-func VSetStep(s Set[int], pre []int, ordered bool, name string, inv func()) {
+func VSetStep(s Set[int], pre []int, ordered bool, name string, inv func()) []int {
 	op := v.CfgOr("op", -1)
 	if op < 0 {
 		op = v.Split(v.IntIn("op", 0, VOpCount-1), 0, VOpCount-1)
@@ -97,4 +97,14 @@ func VSetStep(s Set[int], pre []int, ordered bool, name string, inv func()) {
 	// membership after the step, for an arbitrary probe
 	q := v.Int("q")
 	v.Assert(s.Contains(q) == vHas(want, q), "C04:membership-after")
+	return want
+}
+
+// VSetHistory: D operations in a row from a freshly constructed set.
+func VSetHistory(s Set[int], ordered bool, name string, inv func()) {
+	var members []int
+	D := v.CfgOr("D", 3)
+	for i := 0; i < D; i++ {
+		members = VSetStep(s, members, ordered, name, inv)
+	}
 }
